@@ -87,6 +87,11 @@ let handle = function
        (try ok_hex (Lock.unlock_aead (fun k n ad c -> Prims.aopen (nn mode) (nn sym) (take (key_len symi) k) n ad c) okm
                       (nn tag) (nn ver) (nn sym) (nn mode) derived (bytes_of_hex nonce) (bytes_of_hex pub) (bytes_of_hex ct))
         with Prims.Unsupported _ -> "ERR"))
+  | [("lockok" | "unlockok") as which; ver; var; s2k; weak] ->
+    let v = (match var with "cfb" -> LockRules.PCfb | "malleable" -> LockRules.PMalleable | "legacy" -> LockRules.PLegacy | _ -> LockRules.PAead) in
+    let t = (match s2k with "0" -> LockRules.TSimple | "1" -> LockRules.TSalted | "3" -> LockRules.TIterated | "4" -> LockRules.TArgon2 | _ -> LockRules.TOther) in
+    let p = { LockRules.l_ver = nn ver; LockRules.l_var = v; LockRules.l_s2k = t; LockRules.l_weak = (weak = "1") } in
+    if (if which = "lockok" then LockRules.lock_allowed p else LockRules.unlock_allowed p) then "1" else "0"
   | ["variant"; u] ->
     (match Lock.variant_of (nn u) with
      | Lock.VUnprotected -> "unprotected" | Lock.VLegacy s -> "legacy " ^ string_of_int (int_of_n s)
